@@ -11,7 +11,7 @@
    start+W\" as a statement about whole vote histories. *)
 From Coq Require Import List ZArith NArith Bool.
 From PM Require Import Base.Bytes Store.KV Store.MergeProofs Num.IntModel Num.DecModel Num.DecProofs
-  App.Model App.BankProofs App.TxProofs App.KeyProofs App.PosProofs App.RingProofs App.RingTie App.MissedProofs App.Examples.
+  App.Model App.BankProofs App.TxProofs App.KeyProofs App.PosProofs App.RingProofs App.RingTie App.MissedProofs App.KeyTypes App.KeyTypesMore App.Examples.
 Import ListNotations.
 Local Open Scope Z_scope.
 
@@ -76,6 +76,11 @@ Proof. exact (missed_key_inj a i j). Qed.
 Theorem C08_validators_never_share_a_position_key a b i j : length a = length b -> 0 <= i < 256 ^ 8 -> 0 <= j < 256 ^ 8 ->
   missed_key a i = missed_key b j -> a = b /\ i = j.
 Proof. exact (missed_key_inj2 a b i j). Qed.
+(* counter = stored misses in every history under the key-type restriction as well *)
+Theorem C08_counter_equals_stored_misses_under_key_restriction L r ops s s' :
+  missed_ok L s -> Forall (op_len_ok L) ops -> run_cp r ops s = Some s' -> missed_ok L s'.
+Proof. exact (run_cp_mok L r ops s s'). Qed.
+Print Assumptions C08_counter_equals_stored_misses_under_key_restriction.
 Print Assumptions C08_validators_never_share_a_position_key.
 Print Assumptions C08_threshold_partial.
 Print Assumptions C08_ring_buffer_is_sliding_window.
